@@ -5,7 +5,7 @@ set -e
 cd "$(dirname "$0")"
 export GOFLAGS=-mod=mod GOPROXY=off GOSUMDB=off GOTOOLCHAIN=local
 mkdir -p bin evidence replays
-(cd simgen && go1.26.8 build -o ../bin/simgen .)
+(cd simgen && go1.26.8 build -o ../bin/simgen . && go1.26.8 build -o ../bin/simtypes ./simtypes)
 (cd simrt && go1.26.8 vet ./... >/dev/null 2>&1 || true)
 S=$(mktemp -d /var/tmp/verif.setup.XXXXXX)
 trap 'rm -rf "$S"' EXIT
